@@ -40,7 +40,7 @@ TRUSTED = ["POSIX semantics as modelled in coq/Store/FsStore.v sys_exec: renamea
 RULE = ("scenarios = sharding function x store pre-state (empty, shard directories exist, key already stored, other key) x "
         "operation (Put, PutVec 3 chunks, aborted PutStream, empty block, 1 KiB block); each once fault-free (trace compared "
         "with the model's system-call list), once killed before each of its system calls, and once per system call x errno "
-        "(EIO; +ENOSPC, EACCES on write/rename/mkdir/create; +EEXIST on create; +ENOENT on rename); after each run a new "
+        "(EIO; +ENOSPC, EACCES on write/rename/mkdir/create; +EEXIST on create and mkdir; +ENOENT on rename); after each run a new "
         "process lists the store, reads every key and does a further put/get; distinct = distinct (scenario, fault)")
 
 
